@@ -77,6 +77,7 @@ type Rec struct {
 	Expr   ast.Expr // value expression (packed analysis)
 	Pos    token.Pos
 	Fn     string
+	Snap   map[string]*Term // child records: integer fields of the child strongly updated before it was encoded
 }
 
 type LoopCtx struct {
@@ -94,6 +95,7 @@ type BufObj struct {
 	Recs    []*Rec
 	Cursor  types.Object
 	Pos     token.Pos
+	Snap    map[string]*Term
 }
 
 func (b *BufObj) clone() *BufObj {
